@@ -51,7 +51,7 @@ impl<T> Banded<T> {
     }
 }
 
-impl<T: Clone + Copy + Number + PartialOrd + Neg<Output = T>> Banded<T> {
+impl<T: Clone + Copy + Number + Signed + PartialOrd + Neg<Output = T>> Banded<T> {
     /// Create a new banded matrix of specified size and fill it with a constant value
     #[inline]
     pub fn new( n: usize, m1: usize, m2: usize, value: T ) -> Self {
@@ -111,7 +111,7 @@ impl<T: Clone + Copy + Number + PartialOrd + Neg<Output = T>> Banded<T> {
             if l < self.n { l += 1; }
             for j in k + 1..l {
                 //if au[ j ][ 0 ] > dum {
-                if au[(j, 0)] > dum {
+                if au[(j, 0)].abs() > dum.abs() {
                     //dum = au[ j ][ 0 ];
                     dum = au[(j, 0)];
                     i = j;
@@ -128,7 +128,8 @@ impl<T: Clone + Copy + Number + PartialOrd + Neg<Output = T>> Banded<T> {
             }
             for i in k + 1..l {
                 //dum = au[ i ][ 0 ] / au[ k ][ 0 ];
-                dum = au[(i, 0)] / au[(k, 0)];
+                // Zero pivot (column is zero within the band, singular matrix): nothing to eliminate
+                dum = if au[(k, 0)] == T::zero() { T::zero() } else { au[(i, 0)] / au[(k, 0)] };
                 //al[ k ][ i - k - 1 ] = dum;
                 al[(k, i - k - 1)] = dum;
                 for j in 1..mm {
